@@ -156,7 +156,9 @@ def _py_key(kt, n):
         return slice(f(a), f(b), int(c))
     if kt[0] == "x":
         return [int(v) for v in body.split(",")]
-    return np.array([ch == "1" for ch in body])
+    mask = [ch == "1" for ch in body]
+    # a boolean mask as numpy hands it on (an array), as a plain Python list (mask.tolist()), or as a list of numpy booleans
+    return [np.array(mask), mask, [np.bool_(v) for v in mask]][(len(body) + body.count("1")) % 3]
 
 
 class Runner:
